@@ -9,7 +9,13 @@ import time
 SPEC_DIR = os.path.join(os.path.dirname(os.path.dirname(os.path.dirname(os.path.abspath(__file__)))), "spec")
 
 
+class Seq(list):
+    """a TLA+ sequence constant (plain lists / tuples are rendered as sets)"""
+
+
 def tla_value(v):
+    if isinstance(v, Seq):
+        return "<<" + ", ".join(tla_value(x) for x in v) + ">>"
     if isinstance(v, bool):
         return "TRUE" if v else "FALSE"
     if isinstance(v, int):
@@ -17,7 +23,7 @@ def tla_value(v):
     if isinstance(v, str):
         return '"%s"' % v
     if isinstance(v, (list, tuple, set, frozenset)):
-        return "{" + ", ".join(tla_value(x) for x in sorted(v)) + "}"
+        return "{" + ", ".join(sorted(tla_value(x) for x in v)) + "}"
     raise TypeError(v)
 
 
